@@ -23,8 +23,36 @@ KEYS = [("p256", 0), ("p384", 0), ("p521", 0), ("ed25519", 0), ("rsa", 0), ("p25
 DECLARED = core.ALL_ALGS + [0, -1, -6, -9, -35, -40, -256, -260, 7, 257]
 
 
+# signing schemes that no registered algorithm identifier denotes: PSS whose mask function uses another hash than the message,
+# PKCS#1 v1.5 / ECDSA over hashes outside the table. Whatever the key declares, these must not verify.
+EXOTIC = [("pss", "sha256", "sha1"), ("pss", "sha384", "sha1"), ("pss", "sha512", "sha256"), ("pss", "sha256", "sha512"),
+          ("pkcs1", "sha224", None), ("pkcs1", "sha3_256", None), ("ecdsa", "sha384", None), ("ecdsa", "sha1", None),
+          ("ecdsa", "sha224", None)]
+
+
+def sign_exotic(priv, scheme, data):
+    from cryptography.hazmat.primitives import hashes
+    from cryptography.hazmat.primitives.asymmetric import ec, padding
+    H = {"sha1": hashes.SHA1, "sha224": hashes.SHA224, "sha256": hashes.SHA256, "sha384": hashes.SHA384, "sha512": hashes.SHA512,
+         "sha3_256": hashes.SHA3_256}
+    kind, h, mgf = scheme
+    k = core.key_kind(priv)
+    try:
+        if kind == "pss" and k == "rsa":
+            return priv.sign(data, padding.PSS(mgf=padding.MGF1(H[mgf]()), salt_length=H[h]().digest_size), H[h]())
+        if kind == "pkcs1" and k == "rsa":
+            return priv.sign(data, padding.PKCS1v15(), H[h]())
+        if kind == "ecdsa" and k == "ec":
+            return priv.sign(data, ec.ECDSA(H[h]()))
+    except ValueError:
+        return None
+    return None
+
+
 def sign_as(priv, alg, data):
     """sign `data` the way algorithm `alg` prescribes, if the key type can"""
+    if isinstance(alg, tuple):
+        return sign_exotic(priv, alg, data)
     k = core.key_kind(priv)
     if (k == "ec" and alg in (core.ES256, core.ES512)) or (k == "okp" and alg == core.EDDSA) or \
             (k == "rsa" and alg in (core.RS1, core.RS256, core.RS384, core.RS512, core.PS256, core.PS384, core.PS512)):
@@ -41,7 +69,7 @@ def work(tasks, idx):
     tie = corr.Tie(res, drv, "code_accept_implies_model_accept")
     for kind, kidx, declared, used, via in tasks:
         priv = keys.get(kind, kidx)
-        cred = core.SimCredential(priv=priv, alg=used, cred_id=b"matrix-cred-id")
+        cred = core.SimCredential(priv=priv, alg=used if isinstance(used, int) else declared, cred_id=b"matrix-cred-id")
         if via == "auth":
             ad = core.auth_data(core.sha256(b"example.com"), core.UP, 7)
             cdj = core.client_data("webauthn.get", b"\x01" * 32, "https://example.com")
@@ -104,6 +132,39 @@ def work(tasks, idx):
             if code["k"] != "accept" or code["record"] != key_view(priv.public_key()):
                 res.violations.append({"why": f"COSE {kind} key does not decode to the same public key: {code}", "b": b.hex(),
                                        "match": {"op": "decode_cose", "kind": kind}})
+        if core.key_kind(priv) == "ec":
+            # the point with the same x and the other y (-Q) is a different, equally valid key: decoding must tell them apart,
+            # also right after Q itself was decoded
+            P = {"secp256r1": 2 ** 256 - 2 ** 224 + 2 ** 192 + 2 ** 96 - 1, "secp384r1": 2 ** 384 - 2 ** 128 - 2 ** 96 + 2 ** 32 - 1,
+                 "secp521r1": 2 ** 521 - 1}[priv.curve.name]
+            nums = priv.public_key().public_numbers()
+            size = (priv.curve.key_size + 7) // 8
+            for alg in core.algs_for(priv)[:1]:
+                m = core.cose_key_map(priv.public_key(), alg)
+                m[-3] = (P - nums.y).to_bytes(size, "big")
+                neg = cbor2.dumps(m)
+                code = cases.code_cose_to_pubkey(neg)
+                res.evaluations += 1
+                tie.check({"op": "cose_to_pubkey", "b": neg.hex()}, code, label=["decode-negated", kind], direction="eq")
+                from cryptography.hazmat.primitives.asymmetric import ec as _ec
+                want = key_view(_ec.EllipticCurvePublicNumbers(nums.x, P - nums.y, priv.curve).public_key())
+                if code["k"] != "accept" or code["record"] != want:
+                    res.violations.append({"why": f"COSE {kind} key (x, p-y) does not decode to that key (decoded right after (x, y)): "
+                                                  f"{str(code)[:200]}", "b": neg.hex(), "match": {"op": "decode_cose", "kind": kind + "-negated"}})
+                # and an assertion signed by Q does not verify against -Q
+                ad = core.auth_data(core.sha256(b"example.com"), core.UP, 7)
+                cdj = core.client_data("webauthn.get", b"\x01" * 32, "https://example.com")
+                a = {"id": core.b64url(b"neg"), "raw_id": b"neg", "type": "public-key", "client_data_json": cdj,
+                     "authenticator_data": ad, "signature": core.sign(priv, alg, ad + core.sha256(cdj)), "user_handle": None}
+                e = {"challenge": b"\x01" * 32, "rp_id": "example.com", "origin": "https://example.com",
+                     "public_key": core.cose_key(priv.public_key(), alg), "stored_count": 3, "require_uv": False}
+                ok = cases.run_auth(a, e)
+                bad = cases.run_auth(a, dict(e, public_key=neg))
+                res.evaluations += 2
+                if ok["k"] == "accept" and bad["k"] == "accept":
+                    res.violations.append({"why": f"assertion signed by Q accepted against the stored key -Q ({kind})",
+                                           "case": cases.auth_case(a, dict(e, public_key=neg)),
+                                           "match": {"op": "verify_auth", "kind": kind + "-negated"}})
         if kind.startswith("p256"):
             n = priv.public_key().public_numbers()
             raw = b"\x04" + n.x.to_bytes(32, "big") + n.y.to_bytes(32, "big")
@@ -126,6 +187,9 @@ def run(ctx, res):
             for used in core.ALL_ALGS:
                 for via in ("auth", "packed-self"):
                     tasks.append((kind, kidx, declared, used, via))
+            if declared in core.ALL_ALGS:
+                for used in EXOTIC:
+                    tasks.append((kind, kidx, declared, used, "auth"))
     work.driver_ok = ctx.driver_ok
     corr.merge(res, corr.parallel(work, tasks))
     res.exhaustive = True
